@@ -47,6 +47,55 @@ fn real_main() -> i32 {
             enginek::kworker(&args[2], p(3), p(4), p(5))
         }
         Some("selftest") => enginex::selftest(args.get(2).and_then(|s| s.parse().ok()).unwrap_or(200)),
+        Some("pipestat") => {
+            let n: u64 = args.get(2).and_then(|s| s.parse().ok()).unwrap_or(200);
+            let mut errs = std::collections::BTreeMap::<String, u64>::new();
+            for i in 0..n {
+                let mut rng = prng::Rng::keyed(1, i, "pipe");
+                if let Some(sc) = workloads::make_pipe(&mut rng, false, 60) {
+                    match refm::check_prog(&sc.prog) {
+                        Ok(_) => *errs.entry("ok".into()).or_default() += 1,
+                        Err(e) => {
+                            let k: String = e.chars().filter(|c| !c.is_ascii_digit()).take(70).collect();
+                            if errs.get(&k).is_none() && args.get(3).is_some() {
+                                use printer::Print;
+                                println!("=== {e}\n{}", ast::to_axcut(&sc.prog).print_to_string(None));
+                            }
+                            *errs.entry(k).or_default() += 1;
+                        }
+                    }
+                } else {
+                    *errs.entry("none".into()).or_default() += 1;
+                }
+            }
+            println!("{errs:#?}");
+            0
+        }
+        Some("funstat") => {
+            // acceptance statistics of the Fun generator against the real checker
+            let n: u64 = args.get(2).and_then(|s| s.parse().ok()).unwrap_or(500);
+            let mut errs = std::collections::BTreeMap::<String, (u64, String)>::new();
+            let mut ok = 0;
+            for i in 0..n {
+                let mut rng = prng::Rng::keyed(1, i, "fungen");
+                let cfg = fungen::FunCfg::swarm(&mut rng, 60);
+                let p = fungen::generate(&mut rng, &cfg);
+                match fun::parser::parse_module(&p.unique).map_err(|e| format!("parse {e:?}")).and_then(|m| m.check().map_err(|e| format!("{e:?}"))) {
+                    Ok(_) => ok += 1,
+                    Err(e) => {
+                        let k: String = e.chars().filter(|c| !c.is_ascii_digit()).take(60).collect();
+                        let ent = errs.entry(k).or_insert((0, p.unique.clone()));
+                        ent.0 += 1;
+                    }
+                }
+            }
+            println!("accepted {ok} of {n}");
+            for (k, (c, src)) in errs {
+                println!("{c} x {k}");
+                if args.get(3).is_some() { println!("{src}"); }
+            }
+            0
+        }
         Some("fungen") => {
             let seed: u64 = args.get(2).and_then(|s| s.parse().ok()).unwrap_or(1);
             let mut rng = prng::Rng::keyed(seed, 0, "fungen");
